@@ -689,7 +689,19 @@ Definition notify_clock (now : Z) : M unit :=
   if st_eqb (state s) CLOSED then ret tt else
   when (support_fin_ack s && st_eqb (state s) TIME_WAIT) (set_state_closed 0) ;;;
   s <- get ;;
-  when (support_fin_ack s && st_eqb (state s) LAST_ACK) (queue_fin_message ;;; attempt_send sfFin now) ;;;
+  (* LAST-ACK: resend the FIN that is still waiting for its ACK (the last segment of the send list, already transmitted); queue a new one only
+     if there is none (fix 228ddd4: a new FIN was queued on every call, each taking up one more sequence number) *)
+  r0 <- (if support_fin_ack s && st_eqb (state s) LAST_ACK then
+           match last_seg (slist s) with
+           | Some g =>
+             if has_flag (ss_flags g) FLAG_FIN && (ss_xmit g >? 0) then
+               st <- transmit (length (slist s) - 1) now ;;
+               if negb (st =? 0) then closedown st true now ;;; ret false else ret true
+             else queue_fin_message ;;; attempt_send sfFin now ;;; ret true
+           | None => queue_fin_message ;;; attempt_send sfFin now ;;; ret true
+           end
+         else ret true) ;;
+  if negb r0 then ret tt else
   s <- get ;;
   r1 <- (if negb (rto_base s =? 0) && (time_diff (w32 (rto_base s + rx_rto s)) now <=? 0) then
            match slist s with
